@@ -258,6 +258,31 @@ def fetchRow (σ : State) (s : Sid) (o : Obj) (as : List Attr) (fu : Bool) : Opt
   | some os2 =>
     some (σ.withSess s { ss with objs := upd ss.objs o os2, forUpd := if fu then upd ss.forUpd o true else ss.forUpd })
 
+/-- [Attribute.__get__] on an object whose `_vals_` holds the attribute: mark the read, hand `f value` to the application -/
+def getAttr (cfg : Cfg) (σ : State) (s : Sid) (o : Obj) (a : Attr) (f : Val → Val) : State × Out :=
+  let ss := σ.sess s
+  let os := ss.objs o
+  match os.vals a with
+  | none => (failSess cfg σ s, ⟨.keyError, none⟩)
+  | some x => (σ.withSess s { ss with objs := upd ss.objs o (os.read cfg a) }, ⟨.ok (some (f x)), none⟩)
+
+/-- [Attribute.load] (one lazy column, or `obj._load_()` = all non-lazy columns) followed by [__get__] -/
+def loadAttr (cfg : Cfg) (s : Sid) (o : Obj) (a : Attr) (f : Val → Val) (σ1 : State) : State × Out :=
+  match fetchRow σ1 s o (if cfg.lazy a then [a] else nonLazy cfg) false with
+  | none => (failSess cfg σ1 s, ⟨.unrepeatableRead, none⟩)
+  | some σ2 => getAttr cfg σ2 s o a f
+
+/-- [_find_in_db_] for `E.get(id=o, a=v)`: `SELECT non-lazy columns and a WHERE id = o AND a = v`; a row that is found
+    goes through `_db_set_` and then [_set_rbits] marks `a` as read (`rbits & ~wbits`, bit 0 for a volatile attribute) -/
+def findInDb (cfg : Cfg) (s : Sid) (o : Obj) (a : Attr) (v : Val) (σ1 : State) : State × Out :=
+  if view σ1 s o a = v then
+    match fetchRow σ1 s o (cfg.attrs.filter (fun b => !cfg.lazy b || b == a)) false with
+    | none => (failSess cfg σ1 s, ⟨.unrepeatableRead, none⟩)
+    | some σ2 =>
+      if (((σ2.sess s).objs o).vals a).isSome then getAttr cfg σ2 s o a (fun _ => 1)
+      else (σ2, ⟨.ok (some 1), none⟩)
+  else (σ1, ⟨.ok (some 0), none⟩)
+
 /-- [SessionCache.commit] after the flush: COMMIT when in a transaction, `for_update.clear()`, `immediate = True` -/
 def commitTxn (σ : State) (s : Sid) : State :=
   let ss := σ.sess s
@@ -268,6 +293,7 @@ inductive Action
   | get (o : Obj) (forUpdate : Bool)      -- E.get(id=o) / E.get_for_update(id=o)
   | fetch (o : Obj) (as : List Attr)      -- E.get_by_sql('SELECT id, <as> FROM e WHERE id = o'): re-reads the row
   | read (o : Obj) (a : Attr)             -- obj.a
+  | find (o : Obj) (a : Attr) (v : Val)   -- E.get(id=o, a=v): 1 = found, 0 = None
   | write (o : Obj) (a : Attr) (v : Val)  -- obj.a = v
   | flush                                 -- flush()
   | commit                                -- commit() inside the session
@@ -296,18 +322,15 @@ def step (cfg : Cfg) (σ : State) (s : Sid) : Action → State × Out
     let ss := σ.sess s
     let os := ss.objs o
     if !os.present then (σ, ⟨.notLoaded, none⟩)
-    else match os.vals a with
-      | some v => (σ.withSess s { ss with objs := upd ss.objs o (os.read cfg a) }, okOut (some v))
-      | none =>                                                               -- [Attribute.load]
-        query cfg σ s false (fun σ1 =>
-          match fetchRow σ1 s o (if cfg.lazy a then [a] else nonLazy cfg) false with
-          | none => (failSess cfg σ1 s, ⟨.unrepeatableRead, none⟩)
-          | some σ2 =>
-            let ss2 := σ2.sess s
-            let os2 := ss2.objs o
-            match os2.vals a with
-            | none => (failSess cfg σ2 s, ⟨.keyError, none⟩)
-            | some v => (σ2.withSess s { ss2 with objs := upd ss2.objs o (os2.read cfg a) }, okOut (some v)))
+    else if (os.vals a).isSome then getAttr cfg σ s o a id
+    else query cfg σ s false (loadAttr cfg s o a id)                         -- [Attribute.load]
+  | .find o a v =>
+    let σ := wake σ s
+    let os := (σ.sess s).objs o
+    if os.present then                                                        -- [_find_in_cache_]: `val != attr.__get__(obj)`
+      if (os.vals a).isSome then getAttr cfg σ s o a (fun x => if x = v then 1 else 0)
+      else query cfg σ s false (loadAttr cfg s o a (fun x => if x = v then 1 else 0))
+    else query cfg σ s false (findInDb cfg s o a v)
   | .write o a v =>
     let ss := σ.sess s
     let os := ss.objs o
